@@ -26,6 +26,13 @@ master generator's decisions the model predicts which seed every component and e
 which order, and the initial population.  A log the model does not accept is a broken correspondence: the property is then no longer shown
 to hold by the model and the check reports `VIOLATION ... no-failing-input-found` (default; VERIF_C17_STRICT=0 downgrades it to a
 MODEL-DRIFT note for development).
+
+Composition (compose_family): a few whole solves (1-3 workers, forced completion orders) are recorded by vlib/composekit.py
+and replayed through QV.Repro.Compose.evqe_run = Solver/Loop.v o the EVQE operator models (Evqe/Heap.v run_op) o
+RandLayer.random_population o the master seeding: every population passed to every operator application, every callback
+payload, the loop's ledger / generation counter / estimate at every operator start, the population after the last
+application and the final result (eigenvalue, best individual, ledger, generations, whole history) must be reproduced,
+with every log used up.  A mismatch is a correspondence break (always strict).
 """
 from __future__ import annotations
 
@@ -36,6 +43,7 @@ import random as _random
 from fractions import Fraction
 
 from vlib import core, rnglog
+from vlib import translate
 from vlib import evqe as ev
 from vlib import jssp as jk
 from vlib.core import g_bool, g_list, g_nat, g_opt, g_q, g_str, g_z
@@ -362,7 +370,65 @@ def run_jobs(ctx, jobs, origin="generated"):
     return runs
 
 
+def compose_setups(rng, n):
+    """Seeded solves replayed WHOLE through the composed model: the C17 configurations (CoordinateSearch optimiser), most
+    with one worker, some with 2-3 workers under opskit.ForcedOrderExecutor and forced completion orders; a few with an
+    evaluation budget / an expected evaluation count per optimiser run (limit checks and estimates of the loop)."""
+    out = []
+    for k, job in enumerate(solve_setups(rng, n, True)):
+        s = job["setup"]
+        s.update(optimizer="coordinate", mutex=False, aux=None)
+        s["workers"] = [1, 1, 2, 3][k % 4]
+        s["order"] = [rng.randint(0, 5) for _ in range(rng.randint(0, 6))]
+        if k % 5 == 4:
+            s["opt_estimate"] = rng.choice([4, 7])
+            s["max_evals"] = rng.choice([30, 60, 120])
+            s["p_param"], s["p_topo"], s["p_remove"] = rng.choice([0.25, 0.5, 1.0]), rng.choice([0.5, 1.0]), rng.choice([0.0, 0.5])
+        out.append(s)
+    return out
+
+
+def compose_family(ctx, n):
+    """Correspondence of the composition (QV.Repro.Compose): every population, every callback payload, ledger /
+    n_generations at every operator start, and the final result of a real solve must be what evqe_run computes from the
+    recorded logs.  A mismatch is a correspondence break."""
+    from vlib import composekit as ck
+
+    setups = compose_setups(ctx.rng, n)
+    cases, kept = [], []
+    for s in setups:
+        try:
+            rec = ck.record(s)
+            lit = ck.g_ccase(rec)
+        except ck.Unrepresentable as e:
+            ctx.tally("compose:unrepresentable")
+            ctx.notes.setdefault("compose_unrepresentable", []).append(str(e))
+            continue
+        except Exception as e:  # the recording machinery itself failed on the implementation's behaviour
+            ctx.violation("correspondence", "compose:record", f"a whole solve could not be recorded for the composed model: {type(e).__name__}: {e}", case=dict(setup=s, family="compose"))
+            continue
+        cases.append(lit)
+        kept.append((s, rec))
+        ctx.case(dict(family="compose", setup=s), True, sample=dict(family="compose", setup=s, applications=len(rec.steps)) if len(kept) == 1 else None)
+        ctx.tally("compose:solves")
+        ctx.tally(f"compose:workers:{s['workers']}")
+        ctx.tally("compose:raised" if rec.exception is not None else "compose:ok")
+        ctx.tally("compose:applications", len(rec.steps))
+        if s.get("max_evals") is not None:
+            ctx.tally("compose:with_evaluation_budget")
+    bad = core.model_mismatches("c17_compose", ck.IMPORTS, "ComposeCheck.check_case", cases, chunk=4)
+    for n_shown, b in enumerate(bad):
+        s, rec = kept[b]
+        shown = core.model_show("c17_compose", ck.IMPORTS, f"ComposeCheck.diagnose {cases[b]}") if n_shown < 3 else "(diagnosis computed for the first three cases only)"
+        ctx.tally("compose:mismatch")
+        ctx.violation("correspondence", "compose:model", f"the composed model (QV.Repro.Compose.evqe_run) does not reproduce a whole real solve: {shown}",
+                      case=dict(setup=s, family="compose"), detail=dict(model=shown))
+    ctx.traces += len(cases) - len(bad)
+    ctx.tally("compose:replays_accepted", len(cases) - len(bad))
+
+
 def run(ctx):
+    translate.check_link(ctx, "C17")  # regenerate Gallina from /repo's current evqe.py; link lemmas coq/link/C17Link.v
     if not rnglog.selftest():
         raise RuntimeError("logging Random does not reproduce random.Random")
     ctx.rule = ("case = one seeded call (whole single-worker EVQE solve with deterministic primitives/optimiser, or one random "
@@ -381,10 +447,24 @@ def run(ctx):
     jobs += optimize_jobs(ctx.rng, ctx.n(24, 240))
     ctx.notes["corpus_cases"] = n_corpus
     run_jobs(ctx, jobs)
+    compose_family(ctx, ctx.n(4, 36))
 
 
 def replay(ctx, payload):
+    if translate.is_link_replay(payload) and not payload.get("failing_input"):
+        return translate.replay(ctx, payload, "C17")
     case = payload.get("case") or payload
+    if case.get("family") == "compose":
+        from vlib import composekit as ck
+
+        rec = ck.record(case["setup"])
+        lit = ck.g_ccase(rec)
+        bad = core.model_mismatches("c17_compose", ck.IMPORTS, "ComposeCheck.check_case", [lit])
+        shown = core.model_show("c17_compose", ck.IMPORTS, f"ComposeCheck.diagnose {lit}")
+        print("composed model:", shown)
+        if bad:
+            ctx.violation("correspondence", "compose:model", f"the composed model does not reproduce the solve: {shown}", case=case)
+        return
     job = case["job"]
     from vlib import reprokit as rk
 
